@@ -680,13 +680,9 @@ fn run_case(case: &str, memo: &mut Option<Compiled>) {
                 let (obs, seen) = observe(memo.as_ref().unwrap(), &t);
                 if let Some(seen) = seen {
                     oracle_out = oracle(esc, &p, &t, &seen);
-                } else if let Some(toks) = oracle_parse(&to_pcs(esc, &p)) {
-                    // a pattern inside the defined notation must compile (multi-character collating
-                    // elements are outside it: POSIX locale has none)
-                    let has_seq = toks.iter().any(|t| matches!(t, Tok::Set { seqs, .. } if !seqs.is_empty()));
-                    if !has_seq {
-                        oracle_out = "FAIL:defined pattern rejected".into();
-                    }
+                } else if oracle_parse(&to_pcs(esc, &p)).is_some() {
+                    // a pattern inside the defined notation must compile
+                    oracle_out = "FAIL:defined pattern rejected".into();
                 }
                 obs
             });
